@@ -12,6 +12,7 @@ package gosym
 
 import (
 	"fmt"
+	"os"
 	"go/token"
 	"maps"
 	"slices"
@@ -666,8 +667,18 @@ func (fr *frame) tryMerge(instr *ssa.If, c *Term) (cont continuation, ok bool) {
 		}
 		newEnv = maps.Clone(savedEnv)
 		for key := range savedEnv {
+			// a value defined in a block that does not dominate the join cannot be used at or after it
+			// (SSA dominance; loop-carried values travel through phis), so a stale binding from an earlier
+			// loop iteration that only one arm recomputed needs no merging
+			if ins, isIns := key.(ssa.Instruction); isIns && J != nil && ins.Block() != nil && ins.Block() != B && !ins.Block().Dominates(J) {
+				continue
+			}
 			m, ok := pick(r0, r1, arms[0].env[key], arms[1].env[key])
 			if !ok {
+				if os.Getenv("GOSYM_MERGE_DEBUG") != "" && asIntAny(in.tmp["mergedbg"]) < 5 {
+					in.tmp["mergedbg"] = asIntAny(in.tmp["mergedbg"]) + 1
+					fmt.Fprintf(os.Stderr, "merge env fail at %s: %s = %s: %T vs %T\n", in.prog.Fset.Position(B.Instrs[len(B.Instrs)-1].Pos()), key.Name(), key, arms[0].env[key], arms[1].env[key])
+				}
 				return in.mergeFail("env")
 			}
 			newEnv[key] = m
